@@ -231,7 +231,7 @@ def build_hpbf_bin(profile="release"):
     return os.path.join(BUILD, "cargo-repo", profile, "hpbf")
 
 
-RETRY_KINDS = ("run", "rung", "runfail", "runir", "runbc", "tape", "tapefail", "svec", "expr", "cell")
+RETRY_KINDS = ("run", "rung", "runfail", "runnoas", "runir", "runbc", "tape", "tapefail", "svec", "expr", "cell")
 
 
 def run_lines(exe, lines, timeout=3000, shards=None, args=None, retry=True):
